@@ -234,6 +234,18 @@ def seeds(c):
     vv = arr.get_samples(32)
     if np.array_equal(np.asarray(vv[0][0]), np.asarray(vv[1][0])):
         fails.append(["antennas-equal", "two antennas of one array draw identical noise"])
+    # the array's shared background: one stream per polarisation, each with a seed of its own
+    arr2 = V.MultiAntennaArray(num_antennas=2, sample_rate=1024.0, num_pols=2, delays=[0, 3], seed=c["s1"])
+    for b in arr2.bg_streams:
+        b.add_noise(0, 1)
+    w = np.asarray(arr2.get_samples(48))
+    if np.array_equal(w[0][0], w[0][1]) or np.array_equal(w[1][0], w[1][1]):
+        fails.append(["pols-equal", "the x and y background streams of an array draw identical noise (antenna voltages with background noise only are equal in both polarisations)"])
+    arr3 = V.MultiAntennaArray(num_antennas=2, sample_rate=1024.0, num_pols=2, delays=[0, 3], seed=c["s1"])
+    for b in arr3.bg_streams:
+        b.add_noise(0, 1)
+    if not np.array_equal(w, np.asarray(arr3.get_samples(48))):
+        fails.append(["same-seed-differs", "two arrays with seed %d deliver different voltages" % c["s1"]])
     fb = V.PolyphaseFilterbank(num_taps=2, num_branches=8)
     e1 = np.array(fb.estimate_channelized_stds(factor=50, seed=c["s1"])); e2 = np.array(fb.estimate_channelized_stds(factor=50, seed=c["s1"]))
     if not np.array_equal(e1, e2):
